@@ -119,6 +119,8 @@ type Op struct {
 	Net    string `json:"net,omitempty"` // up | down | blackhole
 	// crash
 	Tear bool `json:"tear,omitempty"`
+	// stop: the new instance starts on empty stores (differential probing: both instances begin cold)
+	Wipe bool `json:"wipe,omitempty"`
 	// free annotation used by oracles (e.g. "probe")
 	Tag string `json:"tag,omitempty"`
 }
